@@ -1,4 +1,5 @@
 import CogentModel.Proofs.DataStoreSim
+import CogentModel.Proofs.DataStoreSqlSim
 import CogentModel.Model.DataStoreSqlite
 /-! # C13 — data stores hold exactly what was written, record by record
 
@@ -176,10 +177,10 @@ def opId : Op D → Option Str
   | _ => none
 
 /-- dictionary level: an operation on `i` leaves every record other than `i`'s two records alone -/
-theorem spec_op_local (sfx : Str) (d : Dict D) (op : Op D) (i : Str) (hi : opId op = some i) (n : Str)
-    (hc : n ≠ cN sfx i) (hn : n ≠ ncN i) :
-    get (specStep .directory sfx d op).completed n = get d.completed n ∧
-    get (specStep .directory sfx d op).notCompleted n = get d.notCompleted n := by
+theorem spec_op_local (k : Kind) (sfx : Str) (d : Dict D) (op : Op D) (i : Str) (hi : opId op = some i) (n : Str)
+    (hc : n ≠ cName k sfx i) (hn : n ≠ ncName k i) :
+    get (specStep k sfx d op).completed n = get d.completed n ∧
+    get (specStep k sfx d op).notCompleted n = get d.notCompleted n := by
   unfold specStep
   split
   · exact ⟨rfl, rfl⟩
@@ -217,7 +218,7 @@ theorem op_on_id_is_local_partial (cfg : Cfg) (H : D → D) (sfx : Str) (ids los
     · rfl
     · cases op <;> simp_all [DataStoreDict.apply, opId]
       split <;> rfl
-  obtain ⟨e1, e2⟩ := spec_op_local sfx d op i hi n hc hn
+  obtain ⟨e1, e2⟩ := spec_op_local .directory sfx d op i hi n hc hn
   rw [h'.root, h'.nc, h'.logs, h.root, h.nc, h.logs]
   exact ⟨e1, e2, hl⟩
 
@@ -230,42 +231,42 @@ example : opId (.write idAfasta 3 : Op Nat) = some idAfasta ∧ baJson ≠ cN fa
 
 /-- dictionary level: in append mode no existing record's content changes; a not-completed
     record may only disappear (retired or dropped) -/
-theorem spec_append_never_overwrites (sfx : Str) (d : Dict D) (op : Op D) (hm : d.mode = .a)
+theorem spec_append_never_overwrites (k : Kind) (sfx : Str) (d : Dict D) (op : Op D) (hm : d.mode = .a)
     (hop : ∀ m, op ≠ .reopen m) (n : Str) (v : D) :
-    (get d.completed n = some v → get (specStep .directory sfx d op).completed n = some v) ∧
+    (get d.completed n = some v → get (specStep k sfx d op).completed n = some v) ∧
     (get d.notCompleted n = some v →
-      get (specStep .directory sfx d op).notCompleted n = some v ∨
-      get (specStep .directory sfx d op).notCompleted n = none) := by
+      get (specStep k sfx d op).notCompleted n = some v ∨
+      get (specStep k sfx d op).notCompleted n = none) := by
   unfold specStep
   split
   · exact ⟨id, Or.inl⟩
   · rename_i hrej
     cases op with
     | write j data =>
-      have hj : has d.completed (cName .directory sfx j) = false := by
-        cases hb : has d.completed (cName .directory sfx j) with
+      have hj : has d.completed (cName k sfx j) = false := by
+        cases hb : has d.completed (cName k sfx j) with
         | false => rfl
         | true => exact absurd (by simp [rejects, hm, hb]) hrej
       constructor
       · intro hg
-        have : n ≠ cName .directory sfx j := by
+        have : n ≠ cName k sfx j := by
           intro e; subst e
           simp [has, hg] at hj
         simp [DataStoreDict.apply, get_put, this, hg]
       · intro hg
         simp only [DataStoreDict.apply, get_del]
-        by_cases e : n = ncName .directory j
+        by_cases e : n = ncName k j
         · right; simp [e]
         · left; simp [e, hg]
     | writeNc j data =>
-      have hj : has d.notCompleted (ncName .directory j) = false := by
-        cases hb : has d.notCompleted (ncName .directory j) with
+      have hj : has d.notCompleted (ncName k j) = false := by
+        cases hb : has d.notCompleted (ncName k j) with
         | false => rfl
         | true => exact absurd (by simp [rejects, hm, hb]) hrej
       constructor
       · intro hg; simp [DataStoreDict.apply, hg]
       · intro hg
-        have : n ≠ ncName .directory j := by
+        have : n ≠ ncName k j := by
           intro e; subst e
           simp [has, hg] at hj
         left; simp [DataStoreDict.apply, get_put, this, hg]
@@ -278,7 +279,7 @@ theorem spec_append_never_overwrites (sfx : Str) (d : Dict D) (op : Op D) (hm : 
         · right; simp [DataStoreDict.apply, he, KV.get]
         · have he' : j.isEmpty = false := by simpa using he
           simp only [DataStoreDict.apply, he', Bool.false_eq_true, if_false, get_del]
-          by_cases e : n = ncName .directory j
+          by_cases e : n = ncName k j
           · right; simp [e]
           · left; simp [e, hg]
     | writeLog j data => exact ⟨fun hg => by simp [DataStoreDict.apply, hg], fun hg => Or.inl (by simp [DataStoreDict.apply, hg])⟩
@@ -296,7 +297,7 @@ theorem append_never_overwrites_partial (cfg : Cfg) (H : D → D) (sfx : Str) (i
     (get s.nc n = some v → get (step cfg H s op).1.nc n = some v ∨ get (step cfg H s op).1.nc n = none) := by
   have h' := (step_sim (cfg := cfg) hy h op hs).1
   rw [h'.root, h'.nc, h.root, h.nc]
-  exact spec_append_never_overwrites sfx d op (h.hmode ▸ hm) hop n v
+  exact spec_append_never_overwrites .directory sfx d op (h.hmode ▸ hm) hop n v
 
 /- FULL STATEMENT (not proved): `append_never_overwrites` without `hyg`/`safe`/`Sim` — false for the
    code as it is: `append_overwrites_not_completed_counter`. -/
@@ -487,5 +488,137 @@ theorem sqlite_readonly_never_mutates_db (H : D → D) (s : Sql D) (op : Op D) (
 -- a read-only store on a LOCKED database with a completed and a not-completed row
 example : let s := DataStoreSqlite.reopen (DataStoreSqlite.run id (DataStoreSqlite.Sql.create .w) [.write idA (1 : Nat), .writeNc idB 2]) .r
     s.mode = .r ∧ s.locked = true ∧ s.fileExists = true ∧ s.rows.length = 2 := by decide
+
+/-! ## SQLite store: refinement of the dictionary -/
+
+open CogentModel.DataStoreSqlite in
+/-- **SQLite store refines the dictionary (partial).**  For EVERY finite history of write /
+write_not_completed / write_log / drop_not_completed (one, all) / close+re-open(mode) / unlock /
+observation over ANY identifiers (incl. the `results/<id>` and `logs/<id>` spellings), any opening
+mode and checksum function: if the connection is never refused (`connOk`: no OVERWRITE of a locked
+database) and every operation is `safeS` — which excludes exactly the two open SQLite findings
+(a not-completed write in OVERWRITE mode over an existing record) and two degenerate spellings —
+then the `results` table holds exactly the dictionary's records: the completed / not-completed member
+lists (`populate`) are the dictionary keys, each listed once; every completed key has the row
+`(data, md5 = H data, is_completed = 1)`, every not-completed key the row `(data, H data, 0)`, and
+there is no other row. -/
+theorem sqlite_store_refines_dict_partial (H : D → D) (mode : Mode) (ops : List (Op D))
+    (hs : safeHistS H (Sql.create mode) (Dict.empty mode) ops = true) :
+    let s := DataStoreSqlite.populate (DataStoreSqlite.run H (Sql.create mode) ops)
+    let d := specRun .sqlite [] (Dict.empty mode) ops
+    s.cCache.Nodup ∧ (∀ n, n ∈ s.cCache ↔ n ∈ keys d.completed) ∧
+    s.ncCache.Nodup ∧ (∀ n, n ∈ s.ncCache ↔ n ∈ keys d.notCompleted) ∧
+    (∀ n v, get d.completed n = some v → get s.rows n = some ⟨v, H v, true⟩) ∧
+    (∀ n v, get d.notCompleted n = some v → get s.rows n = some ⟨v, H v, false⟩) ∧
+    (∀ n, get d.completed n = none → get d.notCompleted n = none → get s.rows n = none) := by
+  have h := run_simS ops _ _ (simS_create (H := H) mode) hs
+  obtain ⟨hp, hf⟩ := simS_populate h
+  refine ⟨hf.cnd, hf.cmem, hf.nnd, hf.nmem, ?_, ?_, ?_⟩
+  · intro n v hg; rw [hp.rows n]; simp [rowOf, hg]
+  · intro n v hg
+    have hnc : get (specRun .sqlite [] (Dict.empty mode) ops).completed n = none := by
+      apply get_none_of_not_mem
+      intro hc
+      exact hp.disj n hc (mem_of_get_some hg)
+    rw [hp.rows n]; simp [rowOf, hg, hnc]
+  · intro n h1 h2; rw [hp.rows n]; simp [rowOf, h1, h2]
+
+/- FULL STATEMENT (not proved): `sqlite_store_refines_dict` without `safeS` — false for the code as it
+   is: `sqlite_nc_over_completed_counter` (OVERWRITE mode: `write_not_completed` on an existing
+   completed record UPDATEs its data, keeps `is_completed = 1` and lists the id in both member
+   lists) and `sqlite_nc_twice_counter` (the member is listed twice). -/
+
+def sqlHist : List (Op Nat) :=
+  [.writeNc idBA 1, .writeNc idA 2, .write (sResults ++ '/' :: idA) 3, .writeLog idB 9, .drop idBA, .unlock, .reopen .a,
+   .write idBA 4, .writeNc idB 5, .observe, .reopen .r, .observe, .drop []]
+
+open CogentModel.DataStoreSqlite in
+example : safeHistS id (Sql.create .w) (Dict.empty .w) sqlHist = true ∧
+    keys (specRun .sqlite [] (Dict.empty .w) sqlHist).completed = [idBA, idA] ∧
+    keys (specRun .sqlite [] (Dict.empty .w) sqlHist).notCompleted = [idB] := by decide
+
+open CogentModel.DataStoreSqlite in
+/-- OVERWRITE mode, `write('a', 1); write_not_completed('a', 2)`: the completed record now holds 2 and
+    the id is listed as completed AND not completed; the dictionary keeps 1 and adds a separate record -/
+theorem sqlite_nc_over_completed_counter :
+    let s := DataStoreSqlite.run id (Sql.create .w) [.write idA (1 : Nat), .writeNc idA 2]
+    (get s.rows idA).map (fun r => (r.data, r.completed)) = some (2, true) ∧ s.cCache = [idA] ∧ s.ncCache = [idA] ∧
+    get (specRun .sqlite [] (Dict.empty .w) [.write idA (1 : Nat), .writeNc idA 2]).completed idA = some 1 := by
+  decide
+
+open CogentModel.DataStoreSqlite in
+/-- OVERWRITE mode, two `write_not_completed('a')`: listed twice -/
+theorem sqlite_nc_twice_counter :
+    (DataStoreSqlite.run id (Sql.create .w) [.writeNc idA (1 : Nat), .writeNc idA 2]).ncCache = [idA, idA] := by
+  decide
+
+open CogentModel.DataStoreSqlite in
+/-- **SQLite: an operation on one identifier never changes any other record (partial).** -/
+theorem sqlite_op_on_id_is_local_partial (H : D → D) (s : Sql D) (d : Dict D) (h : SimS H s d) (op : Op D)
+    (hc : connOk s = true) (hs : safeS d op = true) (i : Str) (hi : opId op = some i) (n : Str) (hn : n ≠ sN i) :
+    get (DataStoreSqlite.step H s op).1.rows n = get s.rows n := by
+  have h' := step_simS h op hc hs
+  obtain ⟨e1, e2⟩ := spec_op_local .sqlite [] d op i hi n hn hn
+  rw [h'.rows n, h.rows n]
+  simp [rowOf, e1, e2]
+
+open CogentModel.DataStoreSqlite in
+/-- **SQLite: append mode never overwrites (partial).**  In append mode a safe operation leaves every
+completed row unchanged (data, md5, flag) and every not-completed row unchanged or removed. -/
+theorem sqlite_append_never_overwrites_partial (H : D → D) (s : Sql D) (d : Dict D) (h : SimS H s d) (op : Op D)
+    (hc : connOk s = true) (hs : safeS d op = true) (hm : s.mode = .a) (hop : ∀ m, op ≠ .reopen m)
+    (n : Str) (r : Row D) (hr : get s.rows n = some r) :
+    (r.completed = true → get (DataStoreSqlite.step H s op).1.rows n = some r) ∧
+    (r.completed = false → get (DataStoreSqlite.step H s op).1.rows n = some r ∨
+      get (DataStoreSqlite.step H s op).1.rows n = none) := by
+  have h' := step_simS h op hc hs
+  rw [h.rows n] at hr
+  rw [h'.rows n]
+  cases hcd : get d.completed n with
+  | some v =>
+    obtain ⟨e1, _⟩ := spec_append_never_overwrites .sqlite [] d op (h.hmode ▸ hm) hop n v
+    simp only [rowOf, hcd, Option.some.injEq] at hr
+    subst hr
+    refine ⟨fun _ => ?_, fun hf => (by cases hf)⟩
+    simp [rowOf, e1 hcd]
+  | none =>
+    cases hnd : get d.notCompleted n with
+    | none => simp [rowOf, hcd, hnd] at hr
+    | some v =>
+      simp only [rowOf, hcd, hnd, Option.map_some, Option.some.injEq] at hr
+      subst hr
+      refine ⟨fun hf => (by cases hf), fun _ => ?_⟩
+      -- the completed side stays empty for `n` unless `n` itself is written; then the row changes kind
+      obtain ⟨_, e2⟩ := spec_append_never_overwrites .sqlite [] d op (h.hmode ▸ hm) hop n v
+      have hc' : get (specStep .sqlite [] d op).completed n = none := by
+        unfold specStep
+        split
+        · exact hcd
+        · rename_i hrej
+          cases op with
+          | write j data =>
+            have hne : n ≠ cName .sqlite [] j := by
+              intro e
+              apply hrej
+              have : has d.notCompleted (ncName .sqlite j) = true := by
+                have : ncName .sqlite j = n := e.symm
+                simp [has, this, hnd]
+              simp [rejects, h.hmode ▸ hm, this]
+            simp [DataStoreDict.apply, get_put, hne, hcd]
+          | writeNc j data => simp [DataStoreDict.apply, hcd]
+          | writeLog j data => simp [DataStoreDict.apply, hcd]
+          | drop j => by_cases he : j.isEmpty = true <;> simp [DataStoreDict.apply, he, hcd]
+          | reopen m => exact absurd rfl (hop m)
+          | observe => simp [DataStoreDict.apply, hcd]
+          | unlock => simp [DataStoreDict.apply, hcd]
+      rcases e2 hnd with e | e
+      · left; simp [rowOf, hc', e]
+      · right; simp [rowOf, hc', e]
+
+open CogentModel.DataStoreSqlite in
+example : SimS (id : Nat → Nat) (DataStoreSqlite.run id (Sql.create .a) [.write idA 1, .writeNc idBA 2])
+      (specRun .sqlite [] (Dict.empty .a) [.write idA (1 : Nat), .writeNc idBA 2]) ∧
+    safeS (specRun .sqlite [] (Dict.empty .a) [.write idA (1 : Nat), .writeNc idBA 2]) (.write idBA (7 : Nat)) = true :=
+  ⟨run_simS _ _ _ (simS_create .a) (by decide), by decide⟩
 
 end CogentModel.C13
